@@ -304,6 +304,7 @@ class Inliner:
         self.expanded: Dict[str, int] = {}
         self.objs: Dict[str, object] = {}          # local name -> ClassInfo of a new helper class whose instance it holds
         self._recv_name: Dict[int, str] = {}
+        self._cls_recv: Dict[int, ast.AST] = {}
         self._pending_recv: Optional[str] = None
 
     # -- which callee ----------------------------------------------------------------------
@@ -336,6 +337,11 @@ class Inliner:
             st = self.prog._resolve_callable_static(fi, f)
             if isinstance(st, FuncInfo) and (st.is_static or st.cls is None):
                 tgt = st
+            elif isinstance(st, FuncInfo) and st.cls is not None and any(d.split(".")[-1] == "classmethod" for d in getattr(st, "decorators", [])) \
+                    and isinstance(self.prog.resolve_expr_static(fi.module, f.value), ClassInfo):
+                # `C.factory(..)`, a classmethod called on the class: `cls` inside is C
+                tgt = st
+                self._cls_recv[id(call)] = f.value
         if not isinstance(tgt, FuncInfo) or isinstance(tgt, ClassInfo):
             return None, False
         if tgt.qualname in self.known or tgt is fi:
@@ -480,6 +486,8 @@ class Inliner:
         if callee is None:
             return None
         b = self._bind(callee, call, recv_self or id(call) in self._recv_name)
+        if b is not None and id(call) in self._cls_recv:
+            b["cls"] = self._cls_recv[id(call)]
         if b is None:
             return None
         self._pending_recv = self._recv_name.get(id(call))
@@ -713,6 +721,8 @@ class Inliner:
                 b = inl._bind(callee, node, recv_self or recv_name is not None)
                 if b is None:
                     return node
+                if id(node) in inl._cls_recv:
+                    b["cls"] = inl._cls_recv[id(node)]
                 e = inl.expr_value_of(callee)
                 if e is None:
                     return node
